@@ -67,6 +67,10 @@ type ExecutionContext struct {
 	template   *Template
 	macroDepth int
 
+	// executed is the template Execute was called on (template is its root
+	// ancestor); its Options decide about TrimBlocks/LStripBlocks.
+	executed *Template
+
 	// nodeState holds what stateful tags (cycle, ifchanged) remember during
 	// one execution, keyed by node. All child contexts share it; the compiled
 	// template itself is never written to while executing.
@@ -101,6 +105,7 @@ func newExecutionContext(tpl *Template, ctx Context) *ExecutionContext {
 func NewChildExecutionContext(parent *ExecutionContext) *ExecutionContext {
 	newctx := &ExecutionContext{
 		template:  parent.template,
+		executed:  parent.executed,
 		nodeState: parent.nodeState,
 
 		Public:     parent.Public,
